@@ -30,3 +30,34 @@ def table_term(rows):
 HEADER = """Require Import Ctpg.Base.Prelude Ctpg.Model.Grammar Ctpg.Model.LRGen Ctpg.Valid.LRValid.
 Local Open Scope nat_scope.
 """
+
+# ---- automata dumps (H2) ----
+import re as _re
+def dfa_term(state_lines):
+    """state_lines: 'ST i sef r a b c d m ... t lo-hi>tgt ...' as printed by harness/h2.cpp"""
+    out = []
+    for l in state_lines:
+        head, rest = l.split(" r ", 1)
+        flags = head.split()[2]
+        rpart, rest = rest.split(" m", 1)
+        mpart, tpart = rest.split(" t", 1) if " t" in rest else (rest, "")
+        recs = [int(x) for x in rpart.split() if int(x) >= 0]
+        merged = [int(x) for x in mpart.split()]
+        runs = [tuple(map(int, _re.match(r"(\d+)-(\d+)>(\d+)", x).groups())) for x in tpart.split()]
+        b = lambda ch: "true" if ch == "1" else "false"
+        out.append(f"mkD {b(flags[0])} {b(flags[1])} {b(flags[2])} {nat_list(recs)} (expand_runs [" + "; ".join(f"({lo}, {hi}, {tg})" for lo, hi, tg in runs) + f"]) {nat_list(merged)}")
+    return "[" + ";\n   ".join(out) + "]"
+
+H2_HEADER = """Require Import Ctpg.Base.Prelude Ctpg.Model.Grammar Ctpg.Model.LRGen Ctpg.Model.Driver Ctpg.Model.Dfa Ctpg.Model.RegexFront
+               Ctpg.Valid.DfaValid Ctpg.Valid.SpecMatch.
+Local Open Scope nat_scope.
+Definition rgt := Eval vm_compute in regex_grammar_table.
+Definition pp (pat : list nat) : option regex := match rgt with Some (g, tb) => parse_pattern_with g tb pat | None => None end.
+Definition term_of (k : nat) (s : list nat) : option term_data :=
+  match k with 0 => Some (TChar (nth 0 s 0)) | 1 => Some (TString s) | _ => option_map TRegex (pp s) end.
+Fixpoint terms_of (l : list (nat * list nat)) : option (list term_data) :=
+  match l with [] => Some [] | (k, s) :: t => match term_of k s, terms_of t with Some x, Some xs => Some (x :: xs) | _, _ => None end end.
+(* the obligation: the automaton dumped from the real builder is validated against the pattern(s) *)
+Definition ob_pat (pat : list nat) (sm : dfa) : bool := match pp pat with Some r => lexer_ok sm [TRegex r] | None => false end.
+Definition ob_terms (ts : list (nat * list nat)) (sm : dfa) : bool := match terms_of ts with Some l => lexer_ok sm l | None => false end.
+"""
